@@ -21,7 +21,8 @@
   Hypothesis recorded once (`Spec.IdsOK`): the IDs given to `For`/`With` are below 256.
 -/
 import Ark.Proofs.Observers
-import Ark.Proofs.GenBridge
+import Ark.Proofs.GenBridge.Obs
+import Ark.Props.C20Words
 
 namespace Ark.Props.C08
 open Ark Ark.Spec
@@ -367,5 +368,27 @@ theorem fireCustom_pred_as_in_source : type_of% @Ark.GenBridge.fireCustom_skip_e
 
 /-- `fireCustom`: the early-out of the Go code equals the early-out of the model -/
 theorem fireCustom_early_as_in_source : type_of% @Ark.GenBridge.fireCustom_early_eq := @Ark.GenBridge.fireCustom_early_eq
+
+
+/-! ## the mask operations the observer conditions rely on, as the word-level Go code computes them -/
+
+theorem words_mask256_contains : type_of% @Ark.Props.C20Words.mask256_contains := @Ark.Props.C20Words.mask256_contains
+
+theorem words_mask256_containsAny : type_of% @Ark.Props.C20Words.mask256_containsAny := @Ark.Props.C20Words.mask256_containsAny
+
+theorem words_mask256_orI : type_of% @Ark.Props.C20Words.mask256_orI := @Ark.Props.C20Words.mask256_orI
+
+theorem words_mask256_isZero : type_of% @Ark.Props.C20Words.mask256_isZero := @Ark.Props.C20Words.mask256_isZero
+
+theorem words_mask256_set : type_of% @Ark.Props.C20Words.mask256_set := @Ark.Props.C20Words.mask256_set
+
+theorem words_mask256_reset : type_of% @Ark.Props.C20Words.mask256_reset := @Ark.Props.C20Words.mask256_reset
+
+theorem words_mask64_contains : type_of% @Ark.Props.C20Words.mask64_contains := @Ark.Props.C20Words.mask64_contains
+
+theorem words_mask64_containsAny : type_of% @Ark.Props.C20Words.mask64_containsAny := @Ark.Props.C20Words.mask64_containsAny
+
+theorem words_mask64_orI : type_of% @Ark.Props.C20Words.mask64_orI := @Ark.Props.C20Words.mask64_orI
+
 
 end Ark.Props.C08
